@@ -118,6 +118,9 @@ def build_unit(u, wdir):
     if rc != 0:
         raise Undecided('goto-cc failed for %s:\n%s' % (u['name'], (out + err)[-3000:]))
     b_gb = os.path.join(wdir, 'b.gb')
+    if u.get('plain'):
+        # bounded stand-in / lemma without contracts: the goto binary is checked as compiled
+        return dict(binary=a_gb, infos=infos, build_s=dt)
     gi = ['goto-instrument', '--dfcc', entry]
     for f in u.get('enforce', []) if isinstance(u.get('enforce'), list) else ([u['enforce']] if u.get('enforce') else []):
         gi += ['--enforce-contract', f]
@@ -132,9 +135,9 @@ def build_unit(u, wdir):
         raise Undecided('goto-instrument failed for %s:\n%s' % (u['name'], (out + err)[-3000:]))
     return dict(binary=b_gb, infos=infos, build_s=dt + dt2)
 
-def cbmc_base(u):
+def cbmc_base(u, route=None):
     flags = ['cbmc'] + CBMC_CHECK_FLAGS + u.get('flags', [])
-    route = u.get('solver', 'sat')
+    route = route or u.get('solver', 'sat')
     if route == 'minisat':
         pass
     elif route in ('sat', 'cadical'):    # default SAT route: cadical (probe: 1.3 s where minisat needs 570 s on XOR-heavy miters)
@@ -142,7 +145,8 @@ def cbmc_base(u):
     elif route == 'kissat':
         flags += ['--external-sat-solver', 'kissat']
     elif route == 'int':
-        flags += ['--cvc5', '--external-smt2-solver', os.path.join(VERIF, 'tools', 'cvc5-int')]
+        # --slice-formula: cone of influence of the selected obligation(s); assumptions are always kept by the slicer
+        flags += ['--slice-formula', '--cvc5', '--external-smt2-solver', os.path.join(VERIF, 'tools', 'cvc5-int')]
     elif route == 'cvc5':
         flags += ['--cvc5']
     elif route == 'z3':
@@ -181,8 +185,8 @@ def list_properties(u, binary):
             props = item['properties']
     return props
 
-def run_cbmc(u, binary, prop_ids=None, timeout=300):
-    cmd = cbmc_base(u) + ['--json-ui', '--trace']
+def run_cbmc(u, binary, prop_ids=None, timeout=300, route=None):
+    cmd = cbmc_base(u, route) + ['--json-ui', '--trace']
     for p in (prop_ids or []):
         cmd += ['--property', p]
     cmd += [binary]
@@ -243,11 +247,37 @@ def run_unit(u, keep=False, jobs=4):
                 raise Undecided('no obligations generated for %s' % u['name'])
             results = []
             pt = u.get('prop_timeout', timeout)
+            # portfolio per obligation: each (route, timeout) in turn until one decides it
+            portfolio = u.get('portfolio') or [[u.get('solver', 'sat'), pt]]
+            def hard(pn):
+                return any(k in pn for k in ('.postcondition', '.precondition', 'loop_invariant', 'loop_step', '.assertion.',
+                                             'division', 'overflow', 'loop_decreases')) and not pn.startswith('__CPROVER')
+            easy = [n for n in names if not hard(n)]
+            todo = [n for n in names if hard(n)]
+            if easy:
+                # all routine obligations (pointer checks, frame checks, instrumentation library) in one SAT call
+                r, mm, d = run_cbmc(u, b['binary'], easy, u.get('easy_timeout', 240), 'cadical')
+                if r is None:
+                    todo = names
+                else:
+                    got = set()
+                    for x in r:
+                        if x.get('property') in easy:
+                            x['route'] = 'cadical'
+                            results.append(x); got.add(x.get('property'))
+                    todo += [n for n in easy if n not in got]
             def one(pn):
-                r, mm, d = run_cbmc(u, b['binary'], [pn], pt)
+                r = None; mm = ''; d = 0
+                for route, tmo in portfolio:
+                    r, mm, d = run_cbmc(u, b['binary'], [pn], tmo, route)
+                    if r is not None and any(x.get('property') == pn and x.get('status') in ('SUCCESS', 'FAILURE') for x in r):
+                        for x in r:
+                            if x.get('property') == pn:
+                                x['route'] = route
+                        break
                 return pn, r, mm, d
             with ThreadPoolExecutor(max_workers=jobs) as ex:
-                for pn, r, mm, d in ex.map(one, names):
+                for pn, r, mm, d in ex.map(one, todo):
                     if r is None:
                         results.append(dict(property=pn, status='UNDECIDED', description=mm))
                     else:
@@ -272,8 +302,12 @@ def run_unit(u, keep=False, jobs=4):
             if st == 'FAILURE' and 'trace' in r:
                 ob['trace'] = r['trace']
             if is_reach(desc):
+                if ob['loc'].get('function') != u['entry']:
+                    continue    # marker of another harness in the same file: not part of this unit
                 n_reach += 1
                 ob['expect_fail'] = True
+            if r.get('route'):
+                ob['route'] = r['route']
             res['obligations'].append(ob)
         if n_reach == 0 and not u.get('no_reach', False):
             res['status'] = 'undecided'
@@ -347,7 +381,7 @@ def native_replay(u, inputs, rfile):
     for k, v in inputs.items():
         if re.match(r'^[A-Za-z_]\w*$', k):
             env['VG_IN_' + k] = str(v)
-    env['ASAN_OPTIONS'] = 'detect_leaks=0'
+    env['ASAN_OPTIONS'] = 'detect_leaks=0:allocator_may_return_null=1'
     rc, out, err, dt, to = sh([exe], timeout=60, mem_kb=None, env=env)
     shutil.rmtree(wdir, ignore_errors=True)
     txt = (out + err)[-3000:]
